@@ -875,3 +875,110 @@ func jsonEncoderEncode(fr *frame, a []value) value {
 	r := call(i, fr, token.NoPos, m, []value{w.v, bytesToValue(b)}).(tuple)
 	return r[1]
 }
+
+// ---- crypto/sha256 (assembly / unsafe inside): native on concrete bytes
+
+func init() {
+	externals["crypto/sha256.Sum256"] = func(fr *frame, a []value) value {
+		sum := sha256Sum([]byte(fr.cbytes(a[0])))
+		arr := make(array, 32)
+		for k := range arr {
+			arr[k] = sum[k]
+		}
+		return arr
+	}
+	externals["github.com/go-viper/mapstructure/v2.Decode"] = mapstructureDecode
+}
+
+// mapstructureDecode models mapstructure.Decode(input, &struct) for flat
+// structs with `mapstructure:"name"` tags (the only use in gqlgen): keys
+// match case-insensitively; string <- string; integers <- any integer,
+// float (truncated) or json.Number holding an integer; anything else is an
+// error ("expected type ...").
+func mapstructureDecode(fr *frame, a []value) value {
+	in, out := a[0].(iface), a[1].(iface)
+	pt, ok := out.t.Underlying().(*types.Pointer)
+	if !ok {
+		return fr.newError("result must be a pointer")
+	}
+	st, ok := pt.Elem().Underlying().(*types.Struct)
+	if !ok {
+		panic(unsupported("mapstructure.Decode into %s", out.t))
+	}
+	if in.t == nil {
+		return iface{}
+	}
+	m, ok := in.v.(*hashmap)
+	if !ok {
+		return fr.newError("'' expected a map, got '" + in.t.String() + "'")
+	}
+	dst := (*out.v.(*value)).(structure)
+	var errs []string
+	for k := 0; k < st.NumFields(); k++ {
+		name := st.Field(k).Name()
+		if tag := reflect.StructTag(st.Tag(k)).Get("mapstructure"); tag != "" {
+			name = strings.Split(tag, ",")[0]
+		}
+		var val value
+		for _, e := range m.live() {
+			if ks, ok := e.key.(string); ok && (ks == name || strings.EqualFold(ks, name)) {
+				val = e.value
+				if ks == name {
+					break
+				}
+			}
+		}
+		if val == nil {
+			continue
+		}
+		iv := val.(iface)
+		if iv.t == nil {
+			continue // nil input: zero value kept
+		}
+		ft := st.Field(k).Type().Underlying().(*types.Basic)
+		switch {
+		case ft.Kind() == types.String:
+			s, ok := iv.v.(string)
+			if !ok || isNamed(iv.t, "encoding/json", "Number") && false {
+				errs = append(errs, "'"+name+"' expected type 'string', got unconvertible type '"+iv.t.String()+"'")
+				continue
+			}
+			fr.i.setCell(&dst[k], s)
+		case ft.Info()&types.IsInteger != 0:
+			var n int64
+			switch x := iv.v.(type) {
+			case string:
+				if !isNamed(iv.t, "encoding/json", "Number") {
+					errs = append(errs, "'"+name+"' expected type '"+ft.Name()+"', got unconvertible type 'string'")
+					continue
+				}
+				p, err := strconv.ParseInt(x, 10, 64)
+				if err != nil {
+					errs = append(errs, "cannot parse '"+name+"' as int")
+					continue
+				}
+				n = p
+			case float64:
+				n = int64(x)
+			case float32:
+				n = int64(x)
+			case bool:
+				errs = append(errs, "'"+name+"' expected type '"+ft.Name()+"', got unconvertible type 'bool'")
+				continue
+			default:
+				if _, ok := kindOfValue(x); !ok {
+					errs = append(errs, "'"+name+"' expected type '"+ft.Name()+"', got unconvertible type '"+iv.t.String()+"'")
+					continue
+				}
+				n = asInt64(x)
+			}
+			fr.i.setCell(&dst[k], concreteOfKind(ft.Kind(), uint64(n)))
+		default:
+			panic(unsupported("mapstructure.Decode field type %s", ft))
+		}
+	}
+	if len(errs) > 0 {
+		return fr.newError(strings.Join(errs, "; "))
+	}
+	return iface{}
+}
